@@ -371,6 +371,7 @@ class FlowSampler:
             close_pool = self.close_pool
         if posterior_sampling_method is None:
             posterior_sampling_method = "rejection_sampling"
+        self._check_posterior_sampling_method(posterior_sampling_method)
 
         self.ns.initialise()
         self.logZ, self._nested_samples = self.ns.nested_sampling_loop()
@@ -474,6 +475,7 @@ class FlowSampler:
             close_pool = self.close_pool
         if posterior_sampling_method is None:
             posterior_sampling_method = "importance_sampling"
+        self._check_posterior_sampling_method(posterior_sampling_method)
 
         self.ns.nested_sampling_loop()
         self._nested_samples = self.ns.samples
@@ -542,6 +544,20 @@ class FlowSampler:
                 )
         if close_pool:
             self.ns.close_pool()
+
+    @staticmethod
+    def _check_posterior_sampling_method(method: str) -> None:
+        """Check the posterior sampling method is valid before sampling."""
+        methods = [
+            "rejection_sampling",
+            "multinomial_resampling",
+            "importance_sampling",
+        ]
+        if method not in methods:
+            raise ValueError(
+                f"Unknown method of drawing posterior samples: {method}. "
+                f"Choose from: {methods}"
+            )
 
     def save_kwargs(self, kwargs: dict) -> None:
         """
